@@ -498,6 +498,9 @@ where
             // calls again, yielding the runge-kutta steps.
             if self.yield_memory == O {
                 self.yield_memory -= 1;
+                self.prev_derivatives
+                    .push_back(self.implicit_derivs.clone());
+                self.prev_derivatives.pop_front();
                 return Err(IVPStatus::Redo);
             }
 
